@@ -500,8 +500,10 @@ def run_impl(case):
         out["qpmf1"] = [float(v) for v in pq[:, 1]]
         lab = np.asarray(to.predict(Xq, sensitive_features=qsf, random_state=int(case.get("pseed", 0))))
         out["qlabels"] = [int(v) for v in lab.reshape(-1).tolist()]
-        lab2 = np.asarray(to.predict(Xq, sensitive_features=qsf, random_state=np.random.RandomState(int(case.get("pseed", 0)))))
-        out["qlabels2"] = [int(v) for v in lab2.reshape(-1).tolist()]
+        if int(case.get("pseed", 0)) % 4 == 0:      # every fourth case: the same seed handed over as a RandomState instance
+            lab2 = np.asarray(to.predict(Xq, sensitive_features=qsf,
+                                         random_state=np.random.RandomState(int(case.get("pseed", 0)))))
+            out["qlabels2"] = [int(v) for v in lab2.reshape(-1).tolist()]
     return out
 
 
